@@ -13,6 +13,27 @@
                    mean it equals (3 = some other value)
    plus frame_ok (ids, geometry, line order of every layout unchanged) and idem (second merge changed nothing).
 
+   kind = "chain" (history): ONE long-lived result layout (the first engine's layout object) is merged incrementally and repeatedly:
+   Tr.steps[s] = one call of merge_layouts on a tuple of the SAME layout objects (slots: 1 = the long-lived result, j = engine j's
+   layout; also the result with itself, a single-layout tuple, the whole tuple, the result in second position), possibly after
+   a call on a tuple outside the scope that fails half-way (mismatching line ids) and after the caller scored the lines of the
+   result itself.  For every call the driver records, per line, conf / tx / lg / ch / rec / refdev exactly as above but relative to
+   what the slots of THIS call held when it was made; these are measured on fresh line objects holding the same transcription,
+   logits and character table, so that the measurement itself is not part of the objects' history.  Every call is a merge of a tuple
+   inside the scope of C19 and is judged with the design operator AcceptsOn (clause 1000 + 10 * call + line).  Tr.lines then is the
+   end-to-end record: conf of the ORIGINAL engines, provenance and recorded confidence of the result after the last call - the
+   design module shows (ChainCorrect, ChainEqualsOneShot) that this must be what one call on the whole tuple gives.
+   Other kinds have Tr.steps = << >>.
+
+   kind = "scale": the character tables hold 300 .. 70 000 symbols, the transcriptions use symbols stored behind position 255 /
+   1 023 / 32 767 / 65 535 of their table and are up to 1 100 characters long.  The design module abstracts a character table to
+   a provenance tag and TLC could not enumerate such tables anyway, so the clauses are the same and one is added (clause 6):
+   num / den is the mean confidence the logits were built to realise, computed by the driver from the weights it put into the
+   rows alone (no label or index arithmetic, independent of the code under test); on lines where every engine's transcription is
+   realised with one row per character (pure: the confidence of a character is then the probability the engine gave it - nothing
+   of C16's finer definitions is involved) the engine whose fields were kept must be one whose built-in mean is maximal.  Only
+   the ORDER of the built-in means is used, not their values.
+
    Acceptance is property-level: operator Accepts of the design module (first arg-max when positive, reading decision of
    Appendix D otherwise), on the confidences the script computes, which must be the means of the library's per-character
    confidences (refdev).  verdict = 0 or the first failing clause (10 + k = selection clause of line k).  With ExactMeans = TRUE the
@@ -32,12 +53,28 @@ BadLines == {k \in Lines : ~Accepts(k, SetOf(Tr.lines[k].tx), SetOf(Tr.lines[k].
 
 \* the mean the script bases its choice on is the mean of the library's per-character confidences of that transcription
 \* (refdev = |script - library| in units of 1e-12; 0 where the library cannot align the line and the script falls back to a constant)
-RefOK == \A k \in Lines : \A i \in Engines : Tr.lines[k].refdev[i] <= 1000
+RefOK == /\ \A k \in Lines : \A i \in Engines : Tr.lines[k].refdev[i] <= 1000
+         /\ \A s \in DOMAIN Tr.steps : \A k \in Lines : \A i \in DOMAIN Tr.steps[s].lines[k].refdev : Tr.steps[s].lines[k].refdev[i] <= 1000
+
+\* chain: the calls (in order) that are not accepted as a merge of the tuple they were given: <<call, line>> coded 10 * call + line
+StepLineBad(s, k) == LET ln == Tr.steps[s].lines[k] IN ~AcceptsOn(ln.conf, SetOf(ln.tx), SetOf(ln.lg), SetOf(ln.ch), ln.rec)
+BadSteps == {s \in DOMAIN Tr.steps : Tr.steps[s].outcome # "ok" \/ \E k \in Lines : StepLineBad(s, k)}
+FirstBadStep == CHOOSE s \in BadSteps : \A o \in BadSteps : s <= o
+StepCode(s) == 10 * s + (IF Tr.steps[s].outcome # "ok" THEN 0 ELSE CHOOSE k \in Lines : StepLineBad(s, k) /\ \A o \in 1..(k-1) : ~StepLineBad(s, o))
+
+\* scale: on pure lines with a positive built-in maximum the kept engine has a maximal built-in mean num / den (order only)
+Kept(k) == SetOf(Tr.lines[k].tx) \cap SetOf(Tr.lines[k].lg) \cap SetOf(Tr.lines[k].ch)
+BuiltOK(k) == LET ln == Tr.lines[k]
+                  has == {i \in Engines : ln.conf[i] # 0}
+              IN  (Tr.kind = "scale" /\ ln.pure /\ \E i \in has : ln.num[i] > 0)
+                  => \E w \in Kept(k) \cap has : \A j \in has : ln.num[j] * ln.den[w] <= ln.num[w] * ln.den[j]
 
 Judge == IF Tr.outcome # "ok" THEN 1
          ELSE IF ~Tr.frame_ok THEN 2
          ELSE IF ~RefOK THEN 3
+         ELSE IF BadSteps # {} THEN 1000 + StepCode(FirstBadStep)
          ELSE IF BadLines # {} THEN 10 + (CHOOSE k \in BadLines : \A o \in BadLines : k <= o)
+         ELSE IF \E k \in Lines : ~BuiltOK(k) THEN 6
          ELSE IF ~Tr.idem THEN 4
          ELSE IF ExactMeans /\ ~LevelsOK THEN 5
          ELSE 0
